@@ -344,7 +344,7 @@ pub fn run(ctx: &Ctx) -> Report {
     let configs: Vec<(Kind, bool, usize)> = if cfg!(miri) {
         vec![(Kind::Index, false, 2), (Kind::NoIndex, false, 3), (Kind::Complete, false, 2)]
     } else {
-        let (li, ln, lc) = (ctx.pick(4, 5), ctx.pick(6, 8), ctx.pick(4, 5));
+        let (li, ln, lc) = (ctx.pick(4, 6), ctx.pick(6, 10), ctx.pick(4, 6));
         vec![(Kind::Index, false, li), (Kind::Index, true, li), (Kind::NoIndex, false, ln), (Kind::NoIndex, true, ln), (Kind::Complete, false, lc), (Kind::Complete, true, lc)]
     };
     let mut total = Report::default();
